@@ -43,9 +43,6 @@ pub enum MState {
         last_k: u8,
         payload: Vec<u8>,
     },
-    /// no-allocator build only: the open group overflowed the fixed buffer; nothing may be delivered
-    /// before the next fragment 1
-    Poisoned,
     /// after an accepted, invalidly numbered sentence: not judged until the next fragment 1
     Unknown,
 }
@@ -96,7 +93,7 @@ pub enum Expect {
     RejectSequence,
     /// no-allocator capacity exceeded: `Err` required
     RejectCapacity,
-    /// not judged (invalid numbering, '*' embedded in a field, poisoned/unknown monitor state)
+    /// not judged (invalid numbering, '*' embedded in a field, unknown monitor state)
     Unjudged(&'static str),
 }
 
@@ -147,7 +144,10 @@ pub fn step(st: &MState, line: &[u8], decode: bool, noalloc: bool) -> (Expect, M
                     let mut whole = payload.clone();
                     whole.extend_from_slice(p.payload);
                     if noalloc && whole.len() > NOALLOC_SENTENCE_CAP {
-                        return (Expect::RejectCapacity, MState::Poisoned);
+                        // rejected like any other line: the group stays as it was (the previously
+                        // ACCEPTED fragment is still last_k), so only a fragment last_k+1 that fits can
+                        // continue it
+                        return (Expect::RejectCapacity, st.clone());
                     }
                     if is_last {
                         let d = decode_exp(&whole, p.fill, decode, noalloc);
@@ -163,7 +163,6 @@ pub fn step(st: &MState, line: &[u8], decode: bool, noalloc: bool) -> (Expect, M
                         )
                     }
                 }
-                MState::Poisoned => (Expect::Unjudged("poisoned by a capacity overflow"), MState::Poisoned),
                 MState::Unknown => (Expect::Unjudged("after an invalidly numbered sentence"), MState::Unknown),
                 _ => (Expect::RejectSequence, st.clone()),
             }
